@@ -151,10 +151,11 @@ def spec_all(optic):
             u0 = sp['EPD'] / (2 * (sp['EPL'] - zo))
             my, mu = spec_trace(els, 0.0, u0, zo)
         sp['marginal'] = (my, mu)
-        n_last = abs(els[-1]['n2']) if not els[-1]['image_class'] else abs(els[-1]['n1'])
         n0 = float(np.ravel(obj.material_post.n(w))[0])
-        sp['magnification'] = n0 * u0 / (float(np.ravel(optic.surface_group.surfaces[-1].material_post.n(w))[0]) * mu[-1]) \
-            if mu[-1] != 0 else math.nan
+        # mirrors are index sign reversal: the image-space index carries (-1)^(number of mirrors)
+        n_img = float(np.ravel(optic.surface_group.surfaces[-1].material_post.n(w))[0]) * \
+            (-1) ** sum(1 for s in optic.surface_group.surfaces if s.is_reflective)
+        sp['magnification'] = n0 * u0 / (n_img * mu[-1]) if mu[-1] != 0 else math.nan
         sp['XPD'] = 2 * (my[-1] + mu[-1] * sp['XPL'])
         # chief ray: through the centre of the entrance pupil
         fmax = float(optic.fields.max_y_field)
